@@ -87,9 +87,10 @@ func genC01Case(t *rapid.T, c *core.Ctx) (*gen.Case, *model.File) {
 	prof := fullMixProfile(c)
 	f := prof.File(t, "prog.json")
 	dopts := &docs.Opts{}
-	docs.AddDefaults(t, f.Root, prof.PDefault, dopts, nil)
+	allow := func(n *model.Node) bool { return defaultAllowed(c, n) }
+	docs.AddDefaults(t, f.Root, prof.PDefault, dopts, allow)
 	for _, d := range f.Defs {
-		docs.AddDefaults(t, d.Node, prof.PDefault, dopts, nil)
+		docs.AddDefaults(t, d.Node, prof.PDefault, dopts, allow)
 	}
 	if rapid.IntRange(0, 3).Draw(t, "hastitle") == 0 {
 		f.Title = rapid.SampledFrom([]string{"My Title", "thing", "a b-c", "Ünï cödé", "9 lives", "日本", "x*y", "  padded  "}).Draw(t, "title")
@@ -141,7 +142,8 @@ func TestC01(t *testing.T) {
 		}
 		c.Sample(describeCase(cs))
 		if len(probs) > 0 && c.Survey() {
-			c.SurveyAdd(surveyKey(probs), cs.Files[0].Text+"\n"+strings.Join(cs.Config.Args(), " ")+"\n"+strings.Join(probs, "\n"))
+			c.SurveyAdd(surveyKey(probs), strings.Join(cs.Config.Args(), " ")+"\n"+strings.Join(probs, "\n"))
+			c.SurveyReplay(surveyKey(probs), &core.Replay{Check: "typecheck", Case: cs, Observed: strings.Join(probs, "\n")})
 			return
 		}
 		if len(probs) > 0 {
